@@ -1,0 +1,49 @@
+// Copyright Suneido Software Corp. All rights reserved.
+// Governed by the MIT license found in the LICENSE file.
+
+//go:build verif
+
+package meta
+
+// Hooks for the external verification harness (build tag verif).
+// They only expose state; they do not change behaviour.
+
+// VerifChain describes one metadata chain (schema or info).
+type VerifChain struct {
+	Chunks int // number of chunks in the persisted chain (len(Offs))
+	Clock  int // persist counter of the chain
+	Live   int // items that are not tombstones
+	Tombs  int // tombstones
+}
+
+// VerifChains reports the shape of the schema and info chains.
+func (m *Meta) VerifChains() (schema, info VerifChain) {
+	schema = VerifChain{Chunks: len(m.schema.Offs), Clock: m.schema.Clock}
+	for it := range m.schema.All() {
+		if it.IsTomb() {
+			schema.Tombs++
+		} else {
+			schema.Live++
+		}
+	}
+	info = VerifChain{Chunks: len(m.info.Offs), Clock: m.info.Clock}
+	for it := range m.info.All() {
+		if it.IsTomb() {
+			info.Tombs++
+		} else {
+			info.Live++
+		}
+	}
+	return
+}
+
+// VerifCreated returns the "created" clock values recorded for a table's
+// schema and info items (0 = not recorded); ok is false if either is missing.
+func (m *Meta) VerifCreated(table string) (schemaCreated, infoCreated int, ok bool) {
+	ts, ok1 := m.schema.Get(table)
+	ti, ok2 := m.info.Get(table)
+	if !ok1 || !ok2 {
+		return 0, 0, false
+	}
+	return ts.created, ti.created, true
+}
